@@ -153,7 +153,7 @@ def cadence_cfgs(item):
     for label, entry in variants:
         cfg = {'start': start.isoformat(), 'end': end.isoformat(), 'burn_in': None, 'assets': ['EQ:AAA', 'EQ:BBB'],
                'alpha': {'kind': 'fixed', 'weights': {'EQ:AAA': 1.0}}, 'rebalance': 'daily', 'weekday': None,
-               'long_only': True, 'buffer': 0.05, 'fee': ['zero'], 'cash': 10007.31, 'signals': {'lookbacks': [12, 2]}}
+               'long_only': True, 'buffer': 0.05, 'fee': ['zero'], 'cash': 10007.31, 'signals': {'lookbacks': [12, 2, 1]}}
         if label == 'static':
             cfg['universe'] = {'kind': 'static'}
             yield label, entry, days, cfg
@@ -168,6 +168,15 @@ def cadence_cfgs(item):
 
 
 def check_cadence(label, entry, days, cfg, market, handler):
+    """One observation per asset per business day - that day's close - and an empty window for a late entrant.
+
+    Observed through the public interface only: a recording alpha model reads every signal value (every current
+    member, lookbacks 1, 2 and 12) at every daily rebalance, i.e. right after that day's close was fed, and the
+    values must be the definitions applied to exactly the closes since the asset's entry.  Momentum over one
+    period pins each single observation (a missed, repeated or wrongly priced one changes it), the 12-period
+    values pin the start of the window.  Buffer internals are NOT read: how observations are stored is the
+    library's business."""
+    cfg = dict(cfg, probe_signals=[1, 2, 12])
     obs = sl.run_session(cfg, handler)
     if obs.error is not None:
         return [{'clause': 'C16.run_failed', 'detail': {'error': obs.error}}]
@@ -179,36 +188,35 @@ def check_cadence(label, entry, days, cfg, market, handler):
         ent['EQ:BBB'] = start - datetime.timedelta(days=5)
     if obs.signals.warmup != len(closes):
         fails.append({'clause': 'C16.warmup', 'detail': {'warmup': obs.signals.warmup, 'closes': len(closes)}})
-    for name, sig in obs.signals.signals.items():
-        bufs = sig.buffers.prices
+    kinds = {'mom': 'momentum', 'sma': 'sma', 'vol': 'vol'}
+    seen = {}
+    for dt, name, asset, n, v in (obs.probe or []):
+        seen[(rm._parse(str(dt)), name, asset, n)] = v
+    for t in closes:
         for asset in ('EQ:AAA', 'EQ:BBB'):
             e = ent[asset]
-            want = [] if e is None else [float(sl.price_at(market, asset[3:], t)) for t in closes if t >= e]
-            mine = [(k, list(v)) for k, v in bufs.items() if k.startswith(asset + '_')]
-            if not mine and want:
-                fails.append({'clause': 'C16.cadence', 'detail': {'signal': name, 'asset': asset, 'observed': None,
-                                                                  'expected': want}})
-            longest = max(mine, key=lambda kv: len(kv[1]))[1] if mine else []
-            if mine and (len(longest) != len(want) or not all(close(a, b) for a, b in zip(longest, want))):
-                fails.append({'clause': 'C16.cadence', 'detail': {'signal': name, 'asset': asset, 'observed': longest,
-                                                                  'expected': want, 'entry': str(e)}})
-            # and the values the user reads, for every lookback, against the definitions on exactly those closes
-            kind = {'mom': 'momentum', 'sma': 'sma', 'vol': 'vol'}[name]
+            if e is None or t < e:
+                continue
+            want = [float(sl.price_at(market, asset[3:], u)) for u in closes if e <= u <= t]
             stream = [Fraction(repr(x)) for x in want]
-            for n in (2, 12):
-                if not stream:
-                    continue
-                try:
-                    got_v = sig(asset, n)
-                except Exception as ex:  # noqa
-                    fails.append({'clause': 'C16.signal_error', 'detail': {'signal': name, 'asset': asset, 'lookback': n,
-                                                                           'error': repr(ex)}})
-                    continue
-                want_v = definition(kind, stream, n)
-                if not close(got_v, want_v, 1e-7):
-                    fails.append({'clause': 'C16.%s_definition' % kind,
-                                  'detail': {'asset': asset, 'lookback': n, 'impl': float(got_v), 'ref': want_v,
-                                             'closes_since_entry': want, 'entry': str(e)}})
+            for name, kind in kinds.items():
+                for n in (1, 2, 12):
+                    got_v = seen.get((t, name, asset, n))
+                    if got_v is None:
+                        fails.append({'clause': 'C16.cadence', 'detail': {'signal': name, 'asset': asset, 'at': str(t),
+                                                                          'observed': None, 'closes_since_entry': want}})
+                        continue
+                    if isinstance(got_v, str):
+                        fails.append({'clause': 'C16.signal_error', 'detail': {'signal': name, 'asset': asset, 'lookback': n,
+                                                                               'at': str(t), 'error': got_v}})
+                        continue
+                    want_v = definition(kind, stream, n)
+                    if not close(got_v, want_v, 1e-7):
+                        fails.append({'clause': 'C16.cadence', 'detail': {
+                            'signal': name, 'asset': asset, 'lookback': n, 'at': str(t), 'impl': got_v, 'ref': want_v,
+                            'closes_since_entry': want, 'entry': str(e)}})
+            if fails:
+                return fails[:3]
     return fails[:3]
 
 
